@@ -74,7 +74,8 @@ def resolve(fq: str):
     raise ImportError(fq)
 
 
-PLAIN_SNAPSHOT = {"MemoryWorkflowStore", "_ControlLoopRunner", "FakeAdapter", "_ServerInternalRunAdapter"}
+PLAIN_SNAPSHOT = {"MemoryWorkflowStore", "_ControlLoopRunner", "FakeAdapter", "_ServerInternalRunAdapter",
+                  "ServerRuntimeDecorator", "IdleReleaseDecorator"}
 
 
 def safe_deepcopy(x, _depth=0):
@@ -121,18 +122,39 @@ def _patch_logged(contract_cls):
     del _dsl._TLOG[:]
     undo = []
     for fq in getattr(_sys.modules.get(contract_cls.__module__), "LOGGED_FUNCTIONS", []):
-        modname, _, short = fq.rpartition(".")
-        mod = importlib.import_module(modname)
-        orig = getattr(mod, short)
+        parts = fq.split(".")
+        owner = None
+        for cut in range(len(parts) - 1, 0, -1):
+            try:
+                owner = importlib.import_module(".".join(parts[:cut]))
+            except ImportError:
+                continue
+            try:
+                for p_ in parts[cut:-1]:
+                    owner = getattr(owner, p_)
+                break
+            except AttributeError:
+                owner = None
+        if owner is None:
+            raise ImportError(fq)
+        short = parts[-1]
+        orig = getattr(owner, short)
 
-        def wrapper(*a, __orig=orig, __short=short, **kw):
-            rec_args = tuple(safe_deepcopy(x) for x in a)
-            r = __orig(*a, **kw)
-            _dsl._FLOG.setdefault(__short, []).append((rec_args, dict(kw), r))
-            return r
+        if inspect.iscoroutinefunction(orig):
+            async def wrapper(*a, __orig=orig, __short=short, **kw):
+                rec_args = tuple(safe_deepcopy(x) for x in a)
+                r = await __orig(*a, **kw)
+                _dsl._FLOG.setdefault(__short, []).append((rec_args, dict(kw), r))
+                return r
+        else:
+            def wrapper(*a, __orig=orig, __short=short, **kw):
+                rec_args = tuple(safe_deepcopy(x) for x in a)
+                r = __orig(*a, **kw)
+                _dsl._FLOG.setdefault(__short, []).append((rec_args, dict(kw), r))
+                return r
 
-        setattr(mod, short, wrapper)
-        undo.append((mod, short, orig))
+        setattr(owner, short, wrapper)
+        undo.append((owner, short, orig))
     return undo
 
 
@@ -184,7 +206,10 @@ def check_once(contract_cls, fn, args: dict, clauses=None):
     if raised is not None:
         names = [c.__name__ for c in type(raised).__mro__]
         allowed_names = list(allowed) if not isinstance(allowed, dict) else list(allowed.keys())
-        ok = any(n in allowed_names for n in names)
+        # "*user": exceptions raised by caller-supplied code (a callable argument, a user policy) pass through; the
+        # native side cannot tell where an exception came from, so any exception is accepted for such contracts (the
+        # symbolic side is precise about it)
+        ok = any(n in allowed_names for n in names) or "*user" in allowed_names
         for n in names:
             cond = getattr(contract_cls, f"raises_{n}", None)
             if cond is not None:
